@@ -272,7 +272,7 @@ fn sample_case(item: u64, rng: &mut Rng, acc: &mut Acc) {
             (Outcome::Err(e), _) => acc.count(&format!("sample_{}", e)),
             (Outcome::Panic(m), _) => {
                 acc.count("sample_panic");
-                acc.set("sample_panic_messages", m.chars().take(100).collect());
+                acc.violate(item, "panic", "gamma:sample_panic", json!({"case": detail(), "panic": m}));
             }
         }
     }
